@@ -84,7 +84,19 @@ def to_plain(node):
 
 
 # name -> (builder(a, b, c, d) -> (lhs, rhs), description)
+LITS = ["1.1", "1.10", 8080, "8080"]     # texts that evaluate to equal numbers / a number and its spelling
+
+
+def _lit(k):
+    from crosshair import realize
+    return LITS[realize(k) % len(LITS)]
+
+
 PAIRS = {
+    "arrays_lit": (lambda a, b, c, d: (cmap(("l", cseq(_lit(a), _lit(b)))), cmap(("l", cseq(_lit(c))))),
+                   "{l: [A, B]} <- {l: [C]} with A, B, C from a pool of texts spelling equal numbers differently (pool selectors)"),
+    "sets_lit": (lambda a, b, c, d: (cmap(("s", cset(_lit(a)))), cmap(("s", cset(_lit(c))))),
+                 "{s: !!set {A}} <- {s: !!set {C}} with A, C from the same pool"),
     "scalars": (lambda a, b, c, d: (cmap(("x", a), ("y", b)), cmap(("y", c), ("z", d))), "{x: a, y: b} <- {y: c, z: d}"),
     "nested": (lambda a, b, c, d: (cmap(("k", 0), ("h", cmap(("p", a), ("q", b))), ("t", 1)),
                                    cmap(("h", cmap(("q", c), ("r", d))), ("n", 2))), "{k, h: {p: a, q: b}, t} <- {h: {q: c, r: d}, n}"),
@@ -211,6 +223,13 @@ def _mk(pair, fixed=None):
                              family="merge/%s" % pair, budget=1200, desc=PAIRS[pair][1] + "  arrays=" + name,
                              bounds={"policies": "3x5x3 selectors, read lazily; arrays=" + name, "a,b,c,d": "[-9,9]"}))
         return out
+    if pair in ("arrays_lit", "sets_lit"):
+        return [shard(PID, "merge/%s" % pair, "harness.c05", "merge_ok(%r, 0, ar, 0, st, a, b, c, 0)" % pair,
+                      [("ar", "int"), ("st", "int"), ("a", "int"), ("b", "int"), ("c", "int")],
+                      ["ar == 3" if pair == "arrays_lit" else "ar == 0", "0 <= st < 3" if pair == "sets_lit" else "st == 0",
+                       "0 <= a < 4 and 0 <= c < 4", "b == 3 - a" if pair == "arrays_lit" else "b == 0"],
+                      family="merge/%s" % pair, budget=1200, kind="S", desc=PAIRS[pair][1],
+                      bounds={"a,b,c": "selectors into a pool of 4 (b = 3 - a)", "policies": "arrays=unique / the three set policies"})]
     params = [("h", "int"), ("ar", "int"), ("ao", "int"), ("st", "int")] + leaves
     pre = ["0 <= h < 3 and 0 <= ar < 4 and 0 <= ao < 5 and 0 <= st < 3", pre_leaves]
     return [shard(PID, "merge/%s" % pair, "harness.c05", "merge_ok(%r, h, ar, ao, st, a, b, c, d)" % pair, params, pre,
@@ -219,7 +238,8 @@ def _mk(pair, fixed=None):
 
 
 QUICK = ["scalars", "nested", "arrays", "aoh", "aoh_strids", "clash_list_over_scalar", "clash_emptylist_over_scalar", "clash_scalar_over_map",
-         "clash_map_over_list", "root_lists", "root_map_scalar", "sets", "empties", "root_list_map", "root_aoh", "twin_sub", "twin_aoh"]
+         "clash_map_over_list", "root_lists", "root_map_scalar", "sets", "empties", "root_list_map", "root_aoh", "twin_sub", "twin_aoh",
+         "arrays_lit", "sets_lit"]
 
 
 def shards(tier, seed):
